@@ -99,6 +99,12 @@ func preSteps(rec *world.Recording, snap world.Snapshot) map[string][]storage.Me
 	req.CreatedAt = world.T0.Add(1)
 	payload := world.MustJSON(req)
 	out["second-round"] = []storage.Message{world.SignedMessage(world.RoundID(payload), string(spf.EventInitProposal), payload, w.Nodes[0].Name, w.Nodes[0].KeyPair.Priv, "")}
+	// (3b) an opening proposal that the round FSM refuses (threshold above the number of
+	// participants): whatever it leaves behind must not weaken the checks for that round id
+	bad2 := w.InitProposal(w.N+1, idx)
+	bad2.CreatedAt = world.T0.Add(2)
+	bp := world.MustJSON(bad2)
+	out["refused-proposal"] = []storage.Message{world.SignedMessage(world.RoundID(bp), string(spf.EventInitProposal), bp, w.Nodes[0].Name, w.Nodes[0].KeyPair.Priv, "")}
 	// (4) an error report of participant 1 for the current DKG phase -> cancelled state
 	if ph, ok := phaseOfState[fsm.State(snap.RoundState(rec.Round))]; ok && ph >= 1 && ph <= 4 {
 		ev := Phases()[ph].Fail
